@@ -24,12 +24,15 @@ Checks(ev) ==
              valid == sized /\ AllElemsValid(ev.kind, c, ev.bytes, var /\ ev.bytes[1] # 0, cnt)
          IN << <<"no-fault", r.fault = 0>>,
                <<"slot-count", ~var \/ r.rep = cnt>>,
-               <<"verdict:" \o ev.cls, (r.ok = 1) = valid>>,
-               <<"remarshal", r.ok = 0 \/ r.again = ev.bytes \/ (var /\ ev.bytes[1] > 1)>> >>
+               \* the non-validating path is constrained only on what the validating path accepts (and in memory safety, above)
+               <<"verdict:" \o ev.cls, (ev.checked = 0 /\ ~valid) \/ (r.ok = 1) = valid>>,
+               <<"remarshal", r.ok = 0 \/ (ev.checked = 0 /\ ~valid) \/ r.again = ev.bytes \/ (var /\ ev.bytes[1] > 1)>> >>
     [] o = "mar.sweep" ->
          LET c == ev.comp = 1 IN
          << <<"no-fault", Len(ev.out.faults) = 0>>,
-            <<"slot-count", \A nn \in 1..ev.nmax : ev.out.rep[nn] = UnmLen(ev.kind, nn, ev.fb, c)>>,
+            <<"slot-count", \A nn \in 1..ev.nmax : ev.out.rep[nn] = UnmLen(ev.kind, nn, ev.fb, c) /\ ev.out.rep2[nn] = ev.out.rep[nn]>>,
+            \* set_length on an object that already has a slot count: a rejected length leaves it unchanged, an accepted one stores the count
+            <<"set-length-state", \A nn \in 1..ev.nmax : ev.out.lafter[nn] = (IF ev.out.rep[nn] < 0 THEN 7777 ELSE ev.out.rep[nn])>>,
             <<"accepted-remarshals-to-n", \A nn \in 1..ev.nmax : ev.out.ok[nn] = 0 \/ ev.out.relen[nn] = nn>>,
             <<"valid-accepted", ev.content # "valid" \/ ev.fb # ev.valid[1] \/ Len(ev.valid) > ev.nmax \/ ev.out.ok[Len(ev.valid)] = 1>> >>
     [] OTHER -> << <<"unknown-op", FALSE>> >>
